@@ -135,7 +135,7 @@ def info(tier):
         "name order) and random problems (generated objective + 0-3 generated relations); Problem.variables / n_variables / "
         "get_bounds / domains compared with the recipe-level syntactic set, an independent natural sort and the declarations; "
         "distinct = canonical problem hashes" % len(shortcut_cases()),
-        "required_cells": sorted({c for c, _, _, _ in shortcut_cases()}) + ["name-stress", "random", "deep-objective", "history"],
+        "required_cells": sorted({c for c, _, _, _ in shortcut_cases()}) + ["name-stress", "random", "deep-objective", "deep-objective-exclusive-vector", "history"],
         "assumptions": ["'mentioned' = syntactic occurrence in the recipe (x*0 still mentions x)"],
     }
 
@@ -228,6 +228,25 @@ def run(ctx, rec):
                 if rr is not None:
                     cons.append(rr)
             check(rec, "random", copy.deepcopy(g.decls), obj, cons, sharing=rng.random() < 0.5)
+        elif n % 8 == 2:
+            # deep objective in which one vector is mentioned by exactly ONE vector node whose other operand recurs elsewhere
+            decls = [{"k": "vec", "name": "x", "n": 3, "lb": -1.0, "ub": 2.0}, {"k": "vec", "name": "y", "n": 3}, {"k": "vec", "name": "w", "n": 3, "ub": 5.0},
+                     {"k": "var", "name": "s"}]
+            Q3 = [[2.0, -0.5, 0.25], [1.0, 1.5, 0.0], [-0.75, 0.5, 3.0]]
+            _w = ["vec", "w"]
+            only_y = rng.choice([["dot", _x, _y], ["dot", _y, _x], ["dotQ", _x, Q3, _y], ["dot", ["vbin", "*", _x, ["raw", 2.0, "float"]], _y],
+                                 ["matmul", _x, _y], ["dot", _x, ["slice", _y, None, None, -1]], ["sum", ["vbin", "*", _x, _y]],
+                                 ["dot", ["slice", _x, 0, 2, None], ["slice", _y, 1, 3, None]]])
+            filler = [["sum", _x], ["dot", _x, _x], ["dot", _x, _w], ["matmul", ["arr", [1.0, 2.0, 3.0]], _x], ["el", _x, 1], ["norm", _x, 2, "method"],
+                      ["bin", "*", ["var", "s"], ["el", _x, 0]], ["sum", ["vpow", _x, 2]], ["dot", _w, _x]]
+            nterms = rng.choice([30, 399, 420, 450])
+            pos = rng.choice([0, 1, 2, nterms // 2, nterms - 1])
+            terms = [filler[(k * 5 + 1) % len(filler)] for k in range(nterms)]
+            terms[pos] = only_y
+            obj = terms[0]
+            for t in terms[1:]:
+                obj = ["bin", rng.choice(["+", "+", "-"]), obj, t]
+            check(rec, "deep-objective-exclusive-vector", decls, obj, [])
         else:
             # deep objective: long left-deep accumulation over few variables
             g = G.Gen(rng, bounds=True, matrices=False)
